@@ -146,6 +146,29 @@ def r04d(F):
 	s1 = {shape(g) for g in full}
 	s2 = {shape(g) for g in sib}
 	oks = bool(s1) and s1 == s2
+	# ... and both running totals are made of the same quantity: the amount the sender intended per part (the skimmed-fee case
+	# makes `value` smaller than `sender_intended_value`)
+	def acc_fields(fnname, guards):
+		fu_ = F.func(fnname)
+		res = set()
+		n = 0
+		for g in guards:
+			for e in (g.a, g.b):
+				stack = [e]
+				while stack:
+					x = stack.pop()
+					if not isinstance(x, tuple):
+						continue
+					if x[0] == 'local' and len(fu_.defs.get(x[1], [])) >= 2 and (fu_.locals[x[1]].get('ty') or '') == 'u64':
+						res |= accumulator_inputs(fu_, x[1])
+						n += 1
+					stack += [y for y in x[1:] if isinstance(y, tuple)]
+		return res, n
+	f1, n1 = acc_fields(fn, full)
+	f2, n2 = acc_fields(CMP + 'check_mpp_timeout', sib)
+	want = {'MppPart.sender_intended_value'}
+	okf = n1 >= 1 and n2 >= 1 and f1 == want and f2 == want
+	out.append(Result('04.d', okf, ('ok:' if okf else 'sibling:') + 'completion-total-quantity', 'the running totals compared with total_mpp_amount_msat are sums of %s in check_incoming_mpp_part and of %s in check_mpp_timeout (expected MppPart.sender_intended_value in both: a skimmed part has value < sender_intended_value)' % (sorted(f1), sorted(f2)), n1 + n2, where=F.where(F.fn(CMP + 'check_mpp_timeout'))))
 	out.append(Result('04.d', oks, ('ok:' if oks else 'sibling:') + 'timer-sibling', 'completion predicate in check_incoming_mpp_part %s equals the one in check_mpp_timeout %s (code comment: "must match exactly")' % (sorted(s1), sorted(s2)), len(full) + len(sib), where=F.where(F.fn(CMP + 'check_mpp_timeout'))))
 	return out
 
@@ -318,6 +341,45 @@ def r04j(F):
 		out.append(Result('04.j', False, 'anchor:claimable-htlc-table', 'the ClaimableHTLC TLV writer/reader pair was not found'))
 	return out
 
+def _closure_tests_even(F, cname):
+	"""does the closure body compute `x % 2` and compare it with 0 / 1?"""
+	try:
+		cu = F.func(cname)
+	except AnchorMissing:
+		return False
+	for g in [Guard(cu, c) for c in comparisons(cu)]:
+		txt = g.text()
+		if 'Rem' in txt and g.nf[1] in ('Eq', 'Ne') and g.nf[2] in (0, 1):
+			return True
+	return False
+
+def r04k(F):
+	"""onion fields agree across parts: the even (must-understand) custom TLVs of BOTH parts take part in the comparison"""
+	fn = 'lightning::ln::outbound_payment::RecipientOnionFields::check_merge'
+	fu = F.func(fn)
+	ex = Expr(fu)
+	srcs = {}
+	for b, ci in fu.calls():
+		callee = norm(ci.get('t') or ci.get('f') or '')
+		if not callee.endswith('Iterator::filter') or len(ci['args']) < 2:
+			continue
+		recv = expr_str(ex.of_operand(ci['args'][0]))
+		clo = ex.of_operand(ci['args'][1])
+		cname = clo[1] if clo[0] == 'agg' else None
+		m = re.search(r'\{closure#\d+\}', expr_str(clo))
+		if not m:
+			continue
+		cn = fn + '::' + m.group(0)
+		if not _closure_tests_even(F, cn):
+			continue
+		if 'custom_tlvs' in recv:
+			side = 'further' if 'further' in recv else 'self'
+			srcs.setdefault(side, []).append(fu.line_of(b))
+	ok = 'self' in srcs and 'further' in srcs
+	return [Result('04.k', ok, ('ok:' if ok else 'onesided:') + 'even-tlvs-both-sides',
+		'check_merge: the even custom TLVs are selected (filter on typ %% 2) from %s (expected from both self.custom_tlvs and further_htlc_fields.custom_tlvs: a part carrying an even TLV the other part lacks must be refused whichever arrives first)' % (sorted(srcs) or 'neither list'),
+		sum(len(v) for v in srcs.values()) + 1, where=F.where(fn))]
+
 RULES = [
 	('04.h', 'custom min-final-CLTV delta bytes: creation, delta reader and expiry decoder agree; expiry test uses the cleared value', r04h),
 	('04.a', 'inbound_payment::verify: Ok only past authentication, minimum amount and expiry', r04a),
@@ -328,4 +390,5 @@ RULES = [
 	('04.d', 'MPP completion predicate, bounded sum, agreement with the timer-side sibling', r04d),
 	('04.f', 'claim only behind the amount re-check; a refused claim fails every part', r04f),
 	('04.g', 'final-hop amount and cltv guards', r04g),
+	('04.k', 'MPP parts agree on their must-understand custom TLVs in both directions', r04k),
 ]
